@@ -496,6 +496,25 @@ func TestKnown_C18_StartOverSurvivingClaim(t *testing.T) {
 	}
 }
 
+// C03+C02.refreshes_end_only_with_the_term@heartbeatLoop: the caller of Start cancels its context
+// instead of calling Stop; the refreshes end but the claim stands.
+func TestKnown_C03_CancelledRunKeepsClaim(t *testing.T) {
+	e, kv := kElection(t, kCfg())
+	var d atomic.Int32
+	e.OnDemote(func() { d.Add(1) })
+	ctx, cancel := context.WithCancel(context.Background())
+	_ = e.Start(ctx)
+	WaitForLeader(t, e, true, 2*time.Second)
+	cancel()
+	time.Sleep(400 * time.Millisecond)
+	_ = kv.Delete("g") // the record lapses: nobody refreshes it any more
+	lead, dem := e.IsLeader(), d.Load()
+	e.Stop()
+	if lead || dem != 1 {
+		t.Fatalf("VIOLATION-REPRODUCED: 400ms after the context given to Start was cancelled (heartbeat interval 200ms) the instance reports IsLeader=%v, OnDemote calls=%d; its record is gone", lead, dem)
+	}
+}
+
 // storepolicy(leaderID).leader_consistent_id: follower-side code overwrites leaderID outside the
 // mutex after an unlocked IsLeader() check; a promotion that lands in between leaves a leader
 // whose Status() names another instance.
